@@ -9,7 +9,7 @@ import sys
 import cachefile
 import core
 
-CONE = ["Model/Blank.v", "Model/CacheFs.v", "Model/FileFlow.v", "Proofs/BlankProofs.v", "Proofs/KeyProofs.v", "Proofs/CacheProofs.v", "Model/Exec.v", "Model/StepExec.v", "Model/FileExec.v", "Model/FileSpec.v", "Model/CacheExec.v", "Model/CacheSpec.v", "Proofs/CacheSafe.v", "Proofs/Refute.v"]
+CONE = ["Model/Blank.v", "Model/CacheFs.v", "Model/FileFlow.v", "Proofs/BlankProofs.v", "Proofs/KeyProofs.v", "Proofs/CacheProofs.v", "Model/Exec.v", "Model/StepExec.v", "Model/FileExec.v", "Model/FileSpec.v", "Model/CacheExec.v", "Model/CacheSpec.v", "Proofs/CacheSafe.v", "Proofs/Refute.v", "Base/Dec.v", "Base/PyLib.v", "Proofs/KeyGen.v"]
 TOKENS = ["/ipykernel_", "/ipykernel_", "12", "7", "007", "/", "x", "/tmp", "ipykernel_", "_", "/ipy", "9/", "abc/", " ", "-", "."]
 
 
@@ -74,6 +74,49 @@ def key_pair_fails(rng, n):
     return fails, fa
 
 
+def keygen_diff(res, rng, n):
+    """the real serialize_funct_h5 (cloudpickle.dumps and _get_hash replaced by recorders) against the regenerated
+    Gen.Serialize.serialize_funct_h5 with the same stand-ins: key text and stored data must agree"""
+    from unittest import mock
+    from core import Obj, pyval, show
+    ser = importlib.import_module("executorlib.standalone.serialize")
+    exprs, want, inputs = [], [], []
+    for _ in range(n):
+        name = rng.choice(["f", "calc", "fa"])
+
+        class Fn:
+            pass
+        fn = Fn()
+        fn.__name__ = name
+        args = rng.choice([[], [1], [1, "x"], [[2, 3]]])
+        kw = rng.choice([{}, {"k": 1}, {"a": "b", "c": 2}])
+        rd = rng.choice([{}, {"cores": 2}, {"cores": 1, "cwd": "/x"}])
+        seen = []
+
+        def dumps(obj):
+            seen.append(obj)
+            return ("P", obj)
+
+        def get_hash(binary):
+            return "h" + show({k: (Obj("fn", 1) if k == "fn" else v) for k, v in binary[1].items()})[:60]
+        with mock.patch.object(ser.cloudpickle, "dumps", dumps), mock.patch.object(ser, "_get_hash", get_hash):
+            key, data = ser.serialize_funct_h5(fn, args, kw, rd)
+        canon = lambda d: {k: (Obj("fn", 1) if k == "fn" else v) for k, v in d.items()}  # noqa
+        want.append("Ok " + show((key, canon(data))) + " | dumps saw " + show([canon(o) for o in seen]))
+        inputs.append(dict(name=name, args=args, kwargs=kw, resource_dict=rd))
+        exprs.append(("match serialize_funct_h5 (fun v => Ok (VTuple [VStr \"P\"; v])) "
+                      "(fun b => match b with VTuple [_; d] => Ok (VStr (String.append \"h\" (substring 0 60 (show d)))) | _ => Err \"TypeError\" end) "
+                      "%s %s %s %s %s with Ok r => \"Ok \" ++ show r ++ \" | dumps saw \" ++ show (VList [%s]) | Err e => \"Err \" ++ e end")
+                     % (pyval(name), pyval(Obj("fn", 1)), pyval(args), pyval(kw), pyval(rd),
+                        pyval({"fn": Obj("fn", 1), "args": args, "kwargs": kw, "resource_dict": rd})))
+    outs = core.eval_strings(["Base.Dec", "Base.PyLib", "Base.Show", "Gen.Serialize"], exprs, "C08_keygen")
+    res.cov["keygen_diff_cases"] = len(exprs)
+    bad = [(i, w, o) for i, w, o in zip(inputs, want, outs) if w != o]
+    if bad:
+        return [{"why": "serialize_funct_h5 and its regenerated model disagree on %r: python %s, model %s" % bad[0], "tie": True}]
+    return []
+
+
 def extra(res, hits):
     rng = res.rng
     fails = []
@@ -94,6 +137,7 @@ def extra(res, hits):
             fails.append({"why": "Model/Blank.v disagrees with re.sub on %r: %r" % bad[0], "tie": True})
     kf, fa = key_pair_fails(rng, n)
     fails += kf
+    fails += keygen_diff(res, rng, n // 3)
     ser = importlib.import_module("executorlib.standalone.serialize")
     res.cov["key_pair_cases"] = n
     # D9: what the interactive cache hashes does not contain the call's resources
@@ -108,7 +152,7 @@ def extra(res, hits):
 
 
 def run(res):
-    cachefile.cache_check(res, "C08", CONE, extra=extra, n_file=(0, 0), n_cache=(60, 600))
+    cachefile.cache_check(res, "C08", CONE, extra=extra, n_file=(0, 0), n_cache=(60, 600), gen=["Serialize"])
 
 
 def replay(path):
